@@ -283,7 +283,9 @@ async fn run_l1_inner(case: &LogCase, dir: &std::path::Path, out: &mut L1Outcome
 }
 
 pub fn l1_case_report(case: &LogCase, profile: Profile) -> CaseReport {
-    let dir = match tempfile::Builder::new().prefix("rnv-l1-").tempdir_in(std::env::temp_dir()) {
+    let base = std::path::PathBuf::from("/verif/work/l1");
+    std::fs::create_dir_all(&base).ok();
+    let dir = match tempfile::Builder::new().prefix("rnv-l1-").tempdir_in(&base) {
         Ok(d) => d,
         Err(e) => {
             return CaseReport {
